@@ -22,7 +22,7 @@ def run(tier, seed):
     res.assumptions = ["the theorem is about sequential histories; concurrent create/create, delete/delete and "
                        "create/delete/find races are explored on the real library under the scheduler and judged by "
                        "the verified linearizability checker (they reduce to unique-insert / remove on the outer tree)"]
-    return seq.run_seq_property(res, "c13", CATS, 40, 300, gen_kwargs=GEN, post=conc_part)
+    return seq.run_seq_property(res, "c13", CATS, 40, 300, gen_kwargs=GEN, post=conc_part, extra_scripts=seq.gen_failed_ddl_scripts)
 
 
 def replay(path, tier, seed):
